@@ -269,12 +269,13 @@ func (this *RippleExtraInfo) Deserialization(source *common.ZeroCopySource) erro
 	if eof {
 		return fmt.Errorf("RippleExtraInfoParam deserialize length of pk array error")
 	}
-	pks := make([][]byte, l)
+	pks := make([][]byte, 0)
 	for i := uint64(0); i < l; i++ {
-		pks[i], eof = source.NextVarBytes()
+		pk, eof := source.NextVarBytes()
 		if eof {
 			return fmt.Errorf("RippleExtraInfoParam deserialize no.%d pk error", i+1)
 		}
+		pks = append(pks, pk)
 	}
 	reserveAmount, eof := source.NextVarBytes()
 	if eof {
